@@ -98,7 +98,14 @@ pub fn gen_transfer(r: &mut Rng) -> Transfer {
         settled: *r.pick(&[None, Some(false), Some(true)]),
         more: r.chance(1, 4),
         rcv_settle_mode: r.pick(&[None, Some(ReceiverSettleMode::First), Some(ReceiverSettleMode::Second)]).clone(),
-        state: if r.chance(1, 6) { Some(DeliveryState::Accepted(Accepted {})) } else { None },
+        state: match r.below(6) {
+            0 => Some(DeliveryState::Accepted(Accepted {})),
+            1 => {
+                let n = 1 + r.below(8) as usize;
+                Some(DeliveryState::TransactionalState(fe2o3_amqp_types::transaction::TransactionalState { txn_id: r.bytes(n).into(), outcome: None }))
+            }
+            _ => None,
+        },
         resume: r.chance(1, 10),
         aborted: false,
         batchable: r.chance(1, 5),
@@ -278,6 +285,22 @@ pub fn run(seed: u64, n: u64, thorough: bool, corpus: &[String], dir: &str) {
                     let last = j == pieces.len() - 1;
                     if (j > 0 && (pt.delivery_tag.is_some() || pt.delivery_id.is_some())) || (!last && !pt.more) || (last && pt.more != t.more) {
                         out.violation("c06-ssplit-fields", &format!("c06-ssplit-fields: piece {} of {} has tag/more fields wrong", j, pieces.len()), &line);
+                    }
+                    // what belongs to the delivery as a whole travels on every piece: the handle, and the delivery state - a
+                    // transactional post carries its transaction in the state of every transfer frame
+                    if pt.handle != t.handle || pt.state != t.state || pt.resume != t.resume || pt.batchable != t.batchable {
+                        out.violation(
+                            "c06-ssplit-fields",
+                            &format!("c06-ssplit-fields: piece {} of {} does not carry the handle / state / resume / batchable of the transfer", j, pieces.len()),
+                            &line,
+                        );
+                        if pt.state != t.state && matches!(t.state, Some(DeliveryState::TransactionalState(_))) {
+                            out.violation(
+                                "c18-split-drops-txn-state",
+                                &format!("c18-split-drops-txn-state: piece {} of {} of a transactional post (state {:?}) goes out with state {:?}", j, pieces.len(), t.state, pt.state),
+                                &line,
+                            );
+                        }
                     }
                     // as the session would send it: with the widest delivery-id on the first piece
                     let mut stamped = pt.clone();
